@@ -148,10 +148,16 @@ def run_case(case):
                                    family=rng.choice([None, 'multiex', 'chain', 'conjcons', 'multiex'] if order_matters else
                                                      [None, None, None, 'multiex', 'chain', 'conjcons', 'indep']))
     wq = None
-    if tname in ('rewrite-base', 'compose', 'rewrite-query', 'reorder', 'reverse', 'rekey-sparse', 'rekey0') and rng.random() < 0.15:
+    if tname in ('rewrite-base', 'compose', 'rewrite-query', 'reorder', 'reverse', 'rekey-sparse', 'rekey0') and rng.random() < (0.4 if tname in ('rewrite-base', 'compose') else 0.15):
         # a base of the witness corpus (shapes on which correction-set cost and cardinality disagree, ties ...)
         from .. import witness
         wi = rng.randrange(len(witness.WITNESSES))
+        if tname in ('rewrite-base', 'compose') and rng.random() < 0.7:
+            # shapes on which the cost of a correction set (violated clauses) and its cardinality disagree: a
+            # re-spelling of a rule changes its clause count and nothing else
+            cc = [i for i, w_ in enumerate(witness.WITNESSES)
+                  if w_[0].startswith(('cost-', 'superset', 'two-rule', 'three-way', 'minimum-set', 'penguin-defaults'))]
+            wi = rng.choice(cc)
         wname, sig, conds, wq, ext_only = witness.asts(wi)
         if len(sig) <= 8:
             weakly = bool(ext_only) or weakly
